@@ -1,7 +1,7 @@
 """C09 — two-phase (collect, then report) aggregate linting equals one-shot linting."""
 import itertools
 
-from . import kernel
+from . import kernel, aggworld, c15
 
 PID = "C09"
 LEVEL = "proof"
@@ -115,3 +115,75 @@ def run(ctx):
             ctx.fail("two-phase aggregate violations differ from one-shot", kernel.slim(c), known, {"oneshot": one, "twophase": two})
         elif one:
             ctx.sample({"files": [f["name"] for f in c["files"]], "parts": c["parts"], "order": c["mergeOrder"], "agg_violations": two[:4]}, limit=4)
+    real_rules_twophase(ctx)
+    lsp_cache_updates(ctx)
+
+
+AGG_CODES = {"unresolved-import", "circular-import", "prefer-package-imports", "impossible-not", "missing-metadata",
+             "no-defined-entrypoint"}
+
+
+def real_rules_twophase(ctx):
+    """the hypothesis "aggregate_report depends only on the merged aggregate data" sampled on the SIX REAL aggregate
+    rules (+ the custom one): workspaces on which they report, every partition (<= 4 files) / random partitions into
+    collect runs, random merge orders; cross-file violations of the report-only run == those of the one-shot run.
+    (No inline directives in these workspaces: that deviation is the recorded finding C09-directives.)"""
+    rng = ctx.rng("real-agg")
+    n = 10 if ctx.quick else 120
+    cases = []
+    for w in range(n):
+        files = aggworld.gen_workspace(rng, 2, 4 if ctx.quick else 6)
+        names = [f["name"] for f in files]
+        cases.append(aggworld.case(files, id=len(cases), w=w))
+        parts = list(partitions(names)) if len(names) <= 4 else []
+        if len(parts) > (5 if ctx.quick else 15):
+            parts = rng.sample(parts, 5 if ctx.quick else 15)
+        parts.append([[x] for x in names])
+        for part in parts:
+            order = list(range(len(part)))
+            rng.shuffle(order)
+            cases.append(aggworld.case(files, id=len(cases), w=w, op="kernel.twophase", parts=part, mergeOrder=order))
+    impl = ctx.impl(cases, procs=12)
+    one = {}
+    for c in cases:
+        i = impl[c["id"]]
+        io = i.get("out") or {}
+        if "panic" in i or "crash" in i or "error" in io:
+            ctx.brk("real aggregate-rule workspace could not be linted (harness)", kernel.slim(c), i, None)
+            continue
+        agg = sorted(map(str, [v for v in (io.get("violations") or []) if v[5]]))
+        if c["op"] == "kernel.lint":
+            one[c["w"]] = agg
+            for t in sorted({v[1] for v in (io.get("violations") or []) if v[5]}):
+                ctx.count("real-agg-reporting:" + t)
+            ctx.seen(c, ("real-one", c["w"]) if agg else None)
+            continue
+        ctx.seen(c, ("real-two", c["w"], str(c["parts"]), str(c["mergeOrder"])) if one.get(c["w"]) else None)
+        if c["w"] in one and agg != one[c["w"]]:
+            ctx.fail("two-phase aggregate violations (real aggregate rules) differ from one-shot", kernel.slim(c), None,
+                     {"only_oneshot": [v for v in one[c["w"]] if v not in agg], "only_twophase": [v for v in agg if v not in one[c["w"]]]})
+
+
+def lsp_cache_updates(ctx):
+    """second half of the statement, through the language server's own aggregate cache (internal/lsp/cache): after a
+    single-file replacement the cross-file diagnostics equal those of a fresh server on the final contents"""
+    cases = c15.directed_aggregate_histories(0)
+    impl = ctx.impl(cases, timeout=3000, procs=6)
+    for c in cases:
+        r = impl[c["id"]]
+        o = r.get("out") or {}
+        desc = {"files": c["files"], "events": c["events"], "scenario": c["_tag"]}
+        if "panic" in r or "crash" in r or "error" in o or not o.get("idle") or not o.get("freshIdle"):
+            ctx.brk("lsp.history harness (server crashed / not idle)", desc, str(r)[:600], None)
+            continue
+        diff = {}
+        for f in sorted(set(o["published"]) | set(o["fresh"])):
+            a = [x for x in o["published"].get(f, []) if x.split("@")[0] in AGG_CODES]
+            b = [x for x in o["fresh"].get(f, []) if x.split("@")[0] in AGG_CODES] if f in o["files"] else []
+            if a != b:
+                diff[f] = {"after_update": a, "fresh": b}
+        ctx.seen(c, ("lsp-update", c["_tag"]))
+        ctx.count("lsp-cache-update:" + c["_tag"])
+        if diff:
+            ctx.fail("after a single-file update the language server's cross-file diagnostics differ from a fresh run over "
+                     "the updated file set", desc, None, diff)
